@@ -95,27 +95,8 @@ def _param_switch(b, local):
 def _reads_upvar_named(body, op, name):
     if op[0] not in ("c", "m"):
         return False
-    for n, pl in body.raw.get("upvars", []):
-        if n != name:
-            continue
-        fidx = [p[1] for p in pl[1:] if isinstance(p, list) and p[0] == "f"]
-        # walk back from op
-        seen, work = set(), [op[1]]
-        defs = body.defs()
-        while work:
-            p = work.pop()
-            if p[0] == 1:
-                f2 = [q[1] for q in p[1:] if isinstance(q, list) and q[0] == "f"]
-                if f2[:len(fidx)] == fidx:
-                    return True
-            if p[0] in seen:
-                continue
-            seen.add(p[0])
-            for d in defs.get(p[0], ()):
-                if d[0] == "assign":
-                    for rp in rvalue_places(d[3]):
-                        work.append(rp)
-    return False
+    o = origin_of_operand(body, op)
+    return name in o.upvar_names and not o.ops
 
 
 def rule_flush_ordering(cx):
